@@ -68,8 +68,16 @@ func NewUnaryHandler[Req, Res any](
 		if err != nil {
 			return err
 		}
-		mergeHeaders(conn.ResponseHeader(), response.Header())
-		mergeHeaders(conn.ResponseTrailer(), response.Trailer())
+		if typed, ok := response.(*Response[Res]); ok {
+			// Read the fields: the accessors allocate lazily, which is a write to a
+			// Response that the handler may be returning from other calls at the same
+			// time (a cached response). The client-stream glue below reads them too.
+			mergeHeaders(conn.ResponseHeader(), typed.header)
+			mergeHeaders(conn.ResponseTrailer(), typed.trailer)
+		} else {
+			mergeHeaders(conn.ResponseHeader(), response.Header())
+			mergeHeaders(conn.ResponseTrailer(), response.Trailer())
+		}
 		return conn.Send(response.Any())
 	}
 
